@@ -12,32 +12,32 @@ CHECKS = {
          "DESIGN.md#c01"),
  "C03": ("E3", "fault_enumeration",
          "exhaustive hostile-input enumeration against unmodified real endpoints through a puppet peer (authenticated frames), a transport-parameter override and raw datagrams",
-         "A puppet peer holding the model-TLS keys replaces one side of an honest connection in a chosen state (handshaking with Initial or Handshake keys, established, mid-transfer, locally closed) and sends every single frame of a hostile alphabet (all frame types at boundary values, malformed and unknown encodings), every ordered pair in 1-RTT and 1000-fold repetitions of resource-consuming frames, against client and server victims under five local configurations. Oracle: no panic, bounded activity, bounded heap growth (counting allocator), a bystander connection on the same endpoint completes, and if the victim terminates, the transport error code is in the set RFC 9000 prescribes/permits for that input and equals the code in CONNECTION_CLOSE on the wire; legal inputs must not terminate. Every transport-parameter edit of a list (boundary values, absent, duplicated, wrong lengths, CID-echo and server-only parameters, truncation at every byte) in both directions: never a panic, valid encodings never rejected, failures only with TRANSPORT_PARAMETER_ERROR. Arbitrary short datagrams into Endpoint::handle in both roles.",
+         "A puppet peer holding the model-TLS keys replaces one side of an honest connection in a chosen state (handshaking with Initial or Handshake keys, established, mid-transfer, locally closed) and sends every single frame of a hostile alphabet (all frame types at boundary values, malformed and unknown encodings), every ordered pair in 1-RTT and 1000-fold repetitions of resource-consuming frames, against client and server victims under five local configurations. Oracle: no panic, bounded activity, bounded heap growth (counting allocator), a bystander connection on the same endpoint completes, and if the victim terminates, the transport error code is in the set RFC 9000 prescribes/permits for that input and equals the code in CONNECTION_CLOSE on the wire; legal inputs must not terminate. Every transport-parameter edit of a list (boundary values, absent, duplicated, wrong lengths, CID-echo and server-only parameters, truncation at every byte) in both directions: never a panic, valid encodings never rejected, failures only with TRANSPORT_PARAMETER_ERROR. Arbitrary short datagrams into Endpoint::handle in both roles. Datagrams with well-formed short and long headers followed by every small body length (exact, one short, with coalesced garbage, padded) are delivered to live connections of both roles and as first packets; the model header-protection key reads its sample like a real one, so a missing length check panics as it would with rustls.",
          "The property allows hostile input to be ignored, so acceptance of an invalid encoding is counted but not flagged; heap bound is a fixed threshold.",
          "DESIGN.md#c03"),
  "C04": ("E3", "fault_enumeration",
          "exhaustive duplication / mutation / probe enumeration on real endpoints with wire-level ledger and differential oracle",
-         "Every emitted datagram of each baseline is re-delivered after each delay of a list (pairs in thorough) incl. forced key updates: per frame type the receiver must not process more frames than the sender put on the wire (harness decoder). Every (datagram x mutation) corrupted copy is injected and the run must be application-equivalent to the uninjected run (wire-identical after the handshake). Stateless-reset probes (exact / every bit flipped / other CID / other address / too short), Version Negotiation and forged Retry packets are injected at every step index against both roles.",
+         "Every emitted datagram of each baseline is re-delivered after each delay of a list (pairs in thorough) incl. forced key updates: per frame type the receiver must not process more frames than the sender put on the wire (harness decoder). Every (datagram x mutation) corrupted copy is injected and the run must be application-equivalent to the uninjected run (wire-identical after the handshake). Stateless-reset probes (exact / every bit flipped / other CID / other address / too short), Version Negotiation and forged Retry packets are injected at every step index against both roles. Mutations: every bit of the first byte, bit flips in the leading 24 (thorough 32, all bits) and trailing 16 bytes, truncations around each header boundary, extensions.",
          "Model TLS: keyed 128-bit tag stands in for the AEAD; cross-connection splices are decided under C09.",
          "DESIGN.md#c04"),
  "C05": ("E2", "fault_enumeration",
          "deviation-bounded stateless exploration of real endpoints with an independent wire-level flow-control ledger",
-         "For each limit configuration (stream / connection / send windows and stream-count limits at 0, 1, 2, 63, 64, 16383, 16384, run-time window and stream-limit changes, reset mid-stream) every execution with <=k dup/delay/drop deviations in the window where MAX_* frames travel is run; credit is computed from the peer's transport parameters (independently decoded) and the MAX_* frames in datagrams actually delivered, use from the STREAM/RESET_STREAM frames the sender emitted; use <= credit is checked at every emission, and the API answers of write()/open() are audited against the probe.",
+         "For each limit configuration (stream / connection / send windows and stream-count limits at 0, 1, 2, 63, 64, 16383, 16384, run-time window and stream-limit changes, reset mid-stream) every execution with <=k dup/delay/drop deviations in the window where MAX_* frames travel is run; credit is computed from the peer's transport parameters (independently decoded) and the MAX_* frames in datagrams actually delivered, use from the STREAM/RESET_STREAM frames the sender emitted; use <= credit is checked at every emission, and the API answers of write()/open() are audited against the probe. A second wire ledger bounds the send window: stream bytes put on the wire and not covered by any ACK frame delivered to the sender (streams it reset excluded) never exceed the largest send window in effect; cases reset a stream while acknowledged ranges sit behind a gap.",
          "A MAX_* frame counts as arrived when its datagram is delivered; 0-RTT judged in C17; vacuity guard requires use == credit to have occurred.",
          "DESIGN.md#c05"),
  "C06": ("E3", "exploration",
          "exhaustive operation-sequence enumeration (puppet frames x local application operations) against a reference model of advertised limits and consumed data",
-         "Every sequence of length 3 (quick) / 4 (thorough) over an alphabet of puppet frames probing each limit from one below to one above (STREAM offsets, FINs, RESET_STREAM final sizes, stream indices, DATAGRAM sizes, CRYPTO offsets) interleaved with local read / stop / set_receive_window / set_max_concurrent_streams / datagram-recv operations, for four limit configurations, is executed against a real endpoint whose honest peer was frozen after the handshake. A reference model tracks what the victim advertised on the wire and what its application consumed or discarded: in-limit frames must be accepted, over-limit frames must close with the code of a violated limit, reads must return exactly the model's bytes, every MAX_DATA / MAX_STREAM_DATA must be <= consumed + window, received data never exceeds the limit.",
+         "Every sequence of length 3 (quick) / 4 (thorough) over an alphabet of puppet frames probing each limit from one below to one above (STREAM offsets, FINs, RESET_STREAM final sizes, stream indices, DATAGRAM sizes, CRYPTO offsets) interleaved with local read / stop / set_receive_window / set_max_concurrent_streams / datagram-recv operations, for four limit configurations, is executed against a real endpoint whose honest peer was frozen after the handshake. A reference model tracks what the victim advertised on the wire and what its application consumed or discarded: in-limit frames must be accepted, over-limit frames must close with the code of a violated limit, reads must return exactly the model's bytes, every MAX_DATA / MAX_STREAM_DATA must be <= consumed + window, received data never exceeds the limit. A macro operation lets a whole stream live and finish (data, read, FIN, read) so that the endpoint recycles its per-stream state before the next stream's limits are probed.",
          "Between the wire-advertised limit and the limit the endpoint has already decided on (credit too small to be worth a frame, MAX_STREAMS still queued) either answer is accepted; final-size enforcement is not demanded for streams the application already finished (RFC 9000 4.5).",
          "DESIGN.md#c06"),
  "C07": ("E3", "fault_enumeration",
          "exhaustive drop-mask / vanish-point / spoofed-Initial / inciting-size enumeration on the real server endpoint with a byte ledger",
-         "Per remote address the harness sums bytes in datagrams delivered to and emitted by the server endpoint; for every datagram emitted before the address is validated (genuine Handshake packet, validated token, echoed PATH_RESPONSE) bytes sent before it must be < 3 x bytes received. Enumerated: all 2^K drop masks of the first K datagrams for certificate size x MTU x Retry x GSO configurations, the client vanishing after every step, single dup/delay of each early datagram, spoofed Initials (sizes 1199/1200/1201/1452, 1-3 copies, with coalesced garbage tails), inciting datagrams of every size 1..=1300 for stateless resets incl. the rate limit, and Initials of every size 1..=1199.",
+         "Per remote address the harness sums bytes in datagrams delivered to and emitted by the server endpoint; for every datagram emitted before the address is validated (genuine Handshake packet, validated token, echoed PATH_RESPONSE) bytes sent before it must be < 3 x bytes received. Enumerated: all 2^K drop masks of the first K datagrams for certificate size x MTU x Retry x GSO configurations, the client vanishing after every step, single dup/delay of each early datagram, spoofed Initials (sizes 1199/1200/1201/1452, 1-3 copies, with coalesced garbage tails), inciting datagrams of every size 1..=1300 for stateless resets incl. the rate limit, and Initials of every size 1..=1199. Spoofed Initials also carry 1/2/5/20 well-formed but undecryptable coalesced packets.",
          "Received bytes = datagrams delivered from the address and routed to (or creating) a connection; vacuity guard requires the budget boundary to have been reached.",
          "DESIGN.md#c07"),
  "C08": ("E3", "fault_enumeration",
          "exhaustive close/crash-point enumeration on real endpoints with loss masks after the close",
-         "For every step index of each baseline run and each of {client close, server close, both, client black-holed, server black-holed}, combined with every drop mask over the first datagrams after the close and duplication of the close packet, the termination oracles are evaluated: ConnectionLost at most once and never for the local closer, the peer's code and reason over a lossless path, drained within 3 PTO (probe value at close), exactly one Drained endpoint event, endpoint forgets the connection and stale datagrams do not route, idle timeout bounds, keep-alive prevents timeout, and CONNECTION_CLOSE is emitted in the same settle step as close() whatever the congestion / pacing / flow-control state.",
+         "For every step index of each baseline run and each of {client close, server close, both, client black-holed, server black-holed}, combined with every drop mask over the first datagrams after the close and duplication of the close packet, the termination oracles are evaluated: ConnectionLost at most once and never for the local closer, the peer's code and reason over a lossless path, drained within 3 PTO (probe value at close), exactly one Drained endpoint event, endpoint forgets the connection and stale datagrams do not route, idle timeout bounds, keep-alive prevents timeout, and CONNECTION_CLOSE is emitted in the same settle step as close() whatever the congestion / pacing / flow-control state. An exact stateless reset reaches the closing side 1 ms / 40 ms after its close (a peer that lost its state), and drained connections are kept and their timers serviced so that anything they still emit (a second Drained, packets, events) is seen.",
          "3*PTO read through the probe hook at close time; server with unvalidated peer and exhausted amplification budget exempt from the prompt-close oracle.",
          "DESIGN.md#c08"),
  "C19": ("E5", "exploration",
@@ -47,7 +47,7 @@ CHECKS = {
          "DESIGN.md#c19"),
  "C09": ("E2", "fault_enumeration",
          "deviation-bounded stateless exploration of one real server endpoint with several concurrent client connections and a per-Endpoint::handle routing oracle",
-         "Three (later four) client connections from two or three client endpoints run different-length transfers against one server endpoint; every execution with <=2 fate deviations in the scenario window is enumerated for CID lengths 0/1/4/8/20, CID rotation every 200 ms, local_address_changed at several points, connections closed at each listed step with a new connection reusing the freed handle, and stale datagrams delayed past handle reuse. For every Endpoint::handle call the connection the datagram is handed to (identified by a never-reused serial) must be the peer of the connection that produced it; connections nobody closed must complete and the server side must obtain exactly that connection's bytes. One-byte CIDs: exhaustion is reported as CidsExhausted, and 80 short connections beside a long-lived pinging one (CID space wraps) cause no misrouting.",
+         "Three (later four) client connections from two or three client endpoints run different-length transfers against one server endpoint; every execution with <=2 fate deviations in the scenario window is enumerated for CID lengths 0/1/4/8/20, CID rotation every 200 ms, local_address_changed at several points, connections closed at each listed step with a new connection reusing the freed handle, and stale datagrams delayed past handle reuse. For every Endpoint::handle call the connection the datagram is handed to (identified by a never-reused serial) must be the peer of the connection that produced it; connections nobody closed must complete and the server side must obtain exactly that connection's bytes. One-byte CIDs: exhaustion is reported as CidsExhausted, and 80 short connections beside a long-lived pinging one (CID space wraps) cause no misrouting. After every run, one datagram per (drained connection, connection ID it ever had) is presented again and must not be handed to any existing connection; scenarios combine CID rotation, close, drain and handle reuse.",
          "Counter-based CID generator supplied through the API (the built-in generators draw from the OS RNG); zero-length CIDs use one connection per client endpoint.",
          "DESIGN.md#c09"),
  "C10": ("E3", "exploration",
@@ -57,17 +57,17 @@ CHECKS = {
          "DESIGN.md#c10"),
  "C18": ("E4", "exploration",
          "deviation-bounded exhaustive task-schedule, cancellation-point and handle-drop enumeration of the real quinn async API under a deterministic executor",
-         "The real quinn crate (Endpoint, Connecting, Connection, streams, datagrams, EndpointDriver, ConnectionDriver) runs over a harness Runtime (virtual clock, timer table), an in-memory AsyncUdpSocket pair and model TLS on a single-threaded executor whose choice at every step (which ready task, or starve tasks and deliver a datagram / fire a timer) is enumerated with <=k deviations; every cancel-safe await site is cancelled after every n polls and retried; every handle is dropped at every point; send back-pressure injected at every poll_send. Oracles: at quiescence every application task is done (no lost wakeup), data integrity, drivers terminate and bookkeeping is released, no panic, no stale waker registration, documented drop semantics.",
+         "The real quinn crate (Endpoint, Connecting, Connection, streams, datagrams, EndpointDriver, ConnectionDriver) runs over a harness Runtime (virtual clock, timer table), an in-memory AsyncUdpSocket pair and model TLS on a single-threaded executor whose choice at every step (which ready task, or starve tasks and deliver a datagram / fire a timer) is enumerated with <=k deviations; every cancel-safe await site is cancelled after every n polls and retried; every handle is dropped at every point; send back-pressure injected at every poll_send. Oracles: at quiescence every application task is done (no lost wakeup), data integrity, drivers terminate and bookkeeping is released, no panic, no stale waker registration, documented drop semantics. Each future instance is polled with its own waker, which becomes inert when the instance is dropped, so a waker kept from a cancelled future loses the wakeup;",
          "Interleaving is at poll granularity on one thread (races inside one poll are out of reach); FIFO loss-free network; tokio primitives used as-is.",
          "DESIGN.md#c18"),
  "C11": ("E3+E2", "model_checking",
          "exhaustive operation-sequence enumeration on a real connection pair compared step by step with a reference model of the stream halves; deviation-bounded exploration for event discipline",
-         "Every operation sequence up to the depth bound over open/write/finish/reset/stopped/set_priority (sender), accept/read/read-to-end/stop/received_reset (receiver), the reverse-direction operations of bidirectional streams and two network operations that flush one direction each (so acknowledgements and STOP_SENDING can be withheld), for both initiators and both stream directions, is executed on a real established pair; after every operation the return value, the set of StreamEvents and remote_open_streams() must equal the reference model's. A second part explores <=k fate deviations (incl. a delay beyond the PTO) over workloads with resets, stops, empty streams and a long stopped transfer and checks Finished at most once and only after all data and the FIN reached the peer, Stopped at most once.",
+         "Every operation sequence up to the depth bound over open/write/finish/reset/stopped/set_priority (sender), accept/read/read-to-end/stop/received_reset (receiver), the reverse-direction operations of bidirectional streams and two network operations that flush one direction each (so acknowledgements and STOP_SENDING can be withheld), for both initiators and both stream directions, is executed on a real established pair; after every operation the return value, the set of StreamEvents and remote_open_streams() must equal the reference model's. A second part explores <=k fate deviations (incl. a delay beyond the PTO) over workloads with resets, stops, empty streams and a long stopped transfer and checks Finished at most once and only after all data and the FIN reached the peer, Stopped at most once. Terminal notifications must actually come: a finished stream whose data was delivered reports Finished exactly once.",
          "Loss is absent from the sequence part (C01/C02 own it); where the property leaves an answer open (write/finish on a half both finished and stopped) either is accepted; Readable events must never be spurious but need not be exact.",
          "DESIGN.md#c11"),
  "C12": ("E2+E3+E1", "fault_enumeration",
          "deviation-bounded stateless exploration of real endpoints with a harness-dictated congestion window and a wire-level gate oracle; explicit-state search of the built-in controllers",
-         "With a harness congestion controller dictating the window (2, 3, 10 datagrams, huge) and with Cubic / NewReno / BBR, incl. ECN-CE marks, Retry, rebinding, migration and key update, every execution with <=k fate deviations is run; each emitted datagram is classified by the independent decoder and an ack-eliciting datagram must not leave when bytes in flight (probe value read before the poll_transmit call plus earlier datagrams of the batch) plus its size reach the window, except owed loss probes, one MTU probe, path-validation packets and CONNECTION_CLOSE. After completion on a quiet network bytes in flight must be 0; fault-free runs over latency x controller x ack-frequency x workload must declare no packet lost. Controller minimum-window search (E1) is merged from /verif/comp.",
+         "With a harness congestion controller dictating the window (2, 3, 10 datagrams, huge) and with Cubic / NewReno / BBR, incl. ECN-CE marks, Retry, rebinding, migration and key update, every execution with <=k fate deviations is run; each emitted datagram is classified by the independent decoder and an ack-eliciting datagram must not leave when bytes in flight (probe value read before the poll_transmit call plus earlier datagrams of the batch) plus its size reach the window, except owed loss probes, one MTU probe, path-validation packets and CONNECTION_CLOSE. After completion on a quiet network bytes in flight must be 0; fault-free runs over latency x controller x ack-frequency x workload must declare no packet lost. Controller minimum-window search (E1) is merged from /verif/comp. Every drop subset of the first K datagrams with and without Retry, also over a link slower than the initial probe timeout, must end with zero bytes in flight.",
          "Bytes in flight / window / owed probes read through the __verif probe; one open known finding (coalescing bypass) is reported as KNOWN-FINDING.",
          "DESIGN.md#c12"),
  "C13": ("E3+E1", "fault_enumeration",
@@ -87,7 +87,7 @@ CHECKS = {
          "DESIGN.md#c15"),
  "C16": ("E3+E2", "model_checking",
          "exhaustive admission sweep (every size x MTU state x peer limit x send buffer) on real endpoints with a wire oracle; exhaustive operation-sequence enumeration against a FIFO-with-byte-budget reference model; deviation-bounded exploration for integrity",
-         "For EVERY datagram size from 0 to the maximum+2, in three MTU states (initial 1200, after discovery to 1452, after black-hole fallback to 1200), for peer max_datagram_frame_size in {absent, 0, 1, 2, 9, 10, 100, 1200, 65535}, send buffers {default, size, size-1, 0} and datagrams locally disabled, send() on a real established connection must answer exactly as the property states; max_size() must fit one packet on the current path and the peer's limit by independent arithmetic; an accepted datagram must appear exactly once on the wire, in one DATAGRAM frame no larger than the peer's limit inside a UDP datagram no larger than the MTU, and arrive byte-identical. Every sequence up to the depth bound over send(len, drop) / flush / recv / send_buffer_space is compared with a FIFO byte-budget model (Blocked, DatagramsUnblocked exactly once, oldest dropped first on both sides). A mixed stream+datagram workload is explored under <=k fate deviations: every received datagram equals one sent and none is delivered more often than sent+duplicated by the network.",
+         "For EVERY datagram size from 0 to the maximum+2, in three MTU states (initial 1200, after discovery to 1452, after black-hole fallback to 1200), for peer max_datagram_frame_size in {absent, 0, 1, 2, 9, 10, 100, 1200, 65535}, send buffers {default, size, size-1, 0} and datagrams locally disabled, send() on a real established connection must answer exactly as the property states; max_size() must fit one packet on the current path and the peer's limit by independent arithmetic; an accepted datagram must appear exactly once on the wire, in one DATAGRAM frame no larger than the peer's limit inside a UDP datagram no larger than the MTU, and arrive byte-identical. Every sequence up to the depth bound over send(len, drop) / flush / recv / send_buffer_space is compared with a FIFO byte-budget model (Blocked, DatagramsUnblocked exactly once, oldest dropped first on both sides). A mixed stream+datagram workload is explored under <=k fate deviations: every received datagram equals one sent and none is delivered more often than sent+duplicated by the network. Two datagrams handed over back to back (first 1/100/700 bytes, second every size around the space the first leaves) must never produce a UDP datagram above the MTU and must both arrive.",
          "Sequences call send() without polling in between; flush runs a loss-free network to quiescence.",
          "DESIGN.md#c16"),
  "C17": ("E3+E2", "fault_enumeration",
@@ -97,12 +97,12 @@ CHECKS = {
          "DESIGN.md#c17"),
  "C20": ("E3", "fault_enumeration",
          "exhaustive insertion-point enumeration with differential (replay / time-translated / extra-call) runs of real endpoints",
-         "For a list of input histories (baselines incl. Retry, CID rotation, key update, rebinding, migration, and every single-deviation history) the run is repeated: identically (bit-identical trace incl. every poll_timeout value), with all Instants shifted by 1 s / 1 day / 10 years (identical relative trace), with a spurious handle_timeout or extra poll round inserted at EVERY step index on either side (identical packets, frames and events), and with all datagrams re-fed plus ten timeouts after both sides drained (no output). A timer may not fire more than 16 consecutive times at one instant.",
+         "For a list of input histories (baselines incl. Retry, CID rotation, key update, rebinding, migration, and every single-deviation history) the run is repeated: identically (bit-identical trace incl. every poll_timeout value), with all Instants shifted by 1 s / 1 day / 10 years (identical relative trace), with a spurious handle_timeout or extra poll round inserted at EVERY step index on either side (identical packets, frames and events), and with all datagrams re-fed plus ten timeouts after both sides drained (no output). A timer may not fire more than 16 consecutive times at one instant. Histories include unroutable datagrams that draw stateless resets (endpoint-level output with random-looking padding).",
          "Entropy supplied through the API (rng_seed, harness CID generator); inserted-call runs are compared on a timing-insensitive trace because pacing arithmetic may round instants differently.",
          "DESIGN.md#c20"),
  "C02": ("E3+E2", "fault_enumeration",
          "exhaustive drop-mask enumeration + deviation-bounded stateless exploration of real endpoints",
-         "Bounded liveness decided by running the real client and server endpoints under every drop subset of the first K datagrams (both directions) for a list of transport configurations and event-driven workloads, plus every <=k dup/delay/drop deviation in a window; each execution must complete the workload with every stream delivered and acknowledged.",
+         "Bounded liveness decided by running the real client and server endpoints under every drop subset of the first K datagrams (both directions) for a list of transport configurations and event-driven workloads, plus every <=k dup/delay/drop deviation in a window; each execution must complete the workload with every stream delivered and acknowledged. Also every drop subset of K datagrams in the middle of the transfer (from the first datagram after the handshake flight) for un-paced and paced senders, including a workload whose FIN travels in a frame of its own.",
          "Model TLS replaces rustls (binding pass compares abstract traces); losses bounded to the first K datagrams / deviation window; timers serviced exactly on time.",
          "DESIGN.md#c02"),
 }
@@ -159,7 +159,10 @@ def main():
         es = json.load(open("/root/.vp/EVIDENCE.schema.json"))
         for c in checks:
             if os.path.exists(c["evidence_file"]):
-                jsonschema.validate(json.load(open(c["evidence_file"])), es)
+                ev = json.load(open(c["evidence_file"]))
+                jsonschema.validate(ev, es)
+                if ev["level"] != c["level_claimed"]["category"]:
+                    raise SystemExit(f"{c['property_id']}: evidence level {ev['level']} != claimed {c['level_claimed']['category']}")
         print("manifest + evidence valid;", len(checks), "checks,", len(na), "not claimed")
     except ImportError:
         print("jsonschema not available; wrote manifest unvalidated")
